@@ -444,11 +444,6 @@ theorem subres_eq (r : SigV2Spec.Req) :
 
 /-! ## the string to sign -/
 
-/-- header authentication: x-amz-date occurs at most once — the complement is finding class
-    `xamzdate-repeated` -/
-def xAmzDateOnce (mode : SigV2Spec.Mode) (r : SigV2Spec.Req) : Bool :=
-  mode = .query || (SigV2Spec.fieldValues r (sp!"x-amz-date")).length ≤ 1
-
 /-- query authentication: `Expires` occurs at most once (a request that repeats it presents no
     credentials for either side, see `C11_expires_repeated_rejected`) -/
 def expiresOnce (mode : SigV2Spec.Mode) (r : SigV2Spec.Req) : Bool :=
@@ -456,7 +451,7 @@ def expiresOnce (mode : SigV2Spec.Mode) (r : SigV2Spec.Req) : Bool :=
 
 /-- the region on which model and specification build the same string to sign -/
 def wf (mode : SigV2Spec.Mode) (r : SigV2Spec.Req) : Bool :=
-  valuesVisible r && xAmzDateOnce mode r && expiresOnce mode r
+  valuesVisible r && expiresOnce mode r
 
 theorem theOnly_getD_of_le_one (vs : List Bytes) (h : vs.length ≤ 1) :
     (theOnly vs).getD [] = SigV2Spec.commaJoin vs := by
@@ -464,27 +459,12 @@ theorem theOnly_getD_of_le_one (vs : List Bytes) (h : vs.length ≤ 1) :
   | [], _ => rfl
   | [v], _ => simp [theOnly, commaJoin_single]
 
-theorem theOnly_isSome_of_le_one (vs : List Bytes) (h : vs.length ≤ 1) :
-    (theOnly vs).isSome = !vs.isEmpty := by
-  match vs, h with
-  | [], _ => rfl
-  | [v], _ => rfl
-
-theorem dateLine_eq (mode : SigV2Spec.Mode) (r : SigV2Spec.Req)
-    (h2 : xAmzDateOnce mode r = true) (h3 : expiresOnce mode r = true) :
+theorem dateLine_eq (mode : SigV2Spec.Mode) (r : SigV2Spec.Req) (h3 : expiresOnce mode r = true) :
     dateLine (implMode mode) (implQs r) (implHeaders r) = SigV2Spec.dateElement mode r := by
   cases mode with
   | header =>
-    simp only [xAmzDateOnce, Bool.or_eq_true, decide_eq_true_eq, reduceCtorEq, false_or] at h2
-    simp only [implMode, dateLine, SigV2Spec.dateElement, getUnique_implHeaders, positional_eq]
-    have h := theOnly_isSome_of_le_one _ h2
-    cases hx : SigV2Spec.fieldValues r (sp!"x-amz-date") with
-    | nil => simp [theOnly]
-    | cons x xs =>
-      rw [hx] at h
-      cases ho : theOnly (x :: xs) with
-      | none => rw [ho] at h; simp at h
-      | some v => simp
+    simp only [implMode, dateLine, SigV2Spec.dateElement, getAll_implHeaders, joinValues_eq]
+    cases SigV2Spec.fieldValues r (sp!"x-amz-date") <;> simp [SigV2Spec.positional]
   | query =>
     simp only [expiresOnce, Bool.or_eq_true, decide_eq_true_eq, reduceCtorEq, false_or] at h3
     simp only [implMode, dateLine, SigV2Spec.dateElement, implQs, Option.bind_some, getUnique_query]
@@ -498,10 +478,10 @@ theorem resource_eq (r : SigV2Spec.Req) :
 theorem stsImpl_eq_stsSpec (mode : SigV2Spec.Mode) (r : SigV2Spec.Req) (h : wf mode r = true) :
     stsImpl mode r = stsSpec mode r := by
   simp only [wf, Bool.and_eq_true] at h
-  obtain ⟨⟨hv, hx⟩, he⟩ := h
+  obtain ⟨hv, he⟩ := h
   unfold stsImpl stsSpec SigV2Spec.stringToSign SigV2Spec.render SigV2Spec.view stringToSign
   simp only []
-  rw [positional_eq r, positional_eq r, dateLine_eq mode r hx he, amzBlock_eq r hv, resource_eq]
+  rw [positional_eq r, positional_eq r, dateLine_eq mode r he, amzBlock_eq r hv, resource_eq]
   rfl
 
 /-- without a query (`qs = None`) the code computes what it computes for an empty one -/
